@@ -96,7 +96,7 @@ func runCompile(expr string) (out string) {
 	return "ok"
 }
 
-var opTimeout = 5 * time.Second
+var opTimeout = 3 * time.Second
 
 // runImpl runs an op with a deadline; a call that does not return in time is reported as "timeout" (the goroutine
 // is abandoned).
@@ -361,11 +361,13 @@ func check(args []string) {
 		}
 	}
 	// property-specific judges that need more than one call
-	rep.Judge = append(rep.Judge, judges(ctx, *driver)...)
+	rep.Judge = append(rep.Judge, judges(ctx, ops, model)...)
 	if len(rep.Samples) == 0 && len(ops) > 0 {
 		rep.Samples = append(rep.Samples, map[string]any{"family": ops[0].Family, "expr": string(ops[0].Expr), "data": ops[0].Data, "impl": impl[0], "model": model[0]})
 	}
-	sort.Slice(rep.Diffs, func(i, j int) bool { return len(rep.Diffs[i].Op.Expr)+len(rep.Diffs[i].Op.Data) < len(rep.Diffs[j].Op.Expr)+len(rep.Diffs[j].Op.Data) })
+	sort.Slice(rep.Diffs, func(i, j int) bool {
+		return len(rep.Diffs[i].Op.Expr)+len(rep.Diffs[i].Op.Data) < len(rep.Diffs[j].Op.Expr)+len(rep.Diffs[j].Op.Data)
+	})
 	if len(rep.Diffs) > 200 {
 		rep.Notes = append(rep.Notes, fmt.Sprintf("%d diffs truncated to 200", len(rep.Diffs)))
 		rep.Diffs = rep.Diffs[:200]
